@@ -156,7 +156,11 @@ def step (st : St) (line : String) : St × List String :=
   let st := { st with lines := st.lines + 1 }
   match line.splitOn " | " with
   | [reqS, implS] =>
-    let req := reqS.splitOn " " |>.filter (· ≠ "")
+    let req0 := reqS.splitOn " " |>.filter (· ≠ "")
+    -- `clone` (the scanner's `Clone` impl) must behave like the implicit `Copy`: same request for the model
+    let req := match req0 with
+      | k :: "clone" :: rest => k :: "copy" :: rest
+      | _ => req0
     let implWs := implS.splitOn " " |>.filter (· ≠ "")
     let evalAll (impl? : Option Obs) : Option ((ScanSt × PollSt) × Obs × Option Obs) :=
       match req, impl? with
